@@ -66,6 +66,22 @@ func c03States() []c03state {
 		{"zerofield", []refcodec.Template{{ID: 256, Fields: nil}}, true},
 		{"zerolen-unknown", []refcodec.Template{{ID: 256, Fields: fs(refcodec.FieldSpec{ID: 999, Len: 0}, refcodec.FieldSpec{ID: 77, PEN: 4242, Len: 0})}}, false},
 		{"unknown-mix", []refcodec.Template{{ID: 256, Fields: fs(refcodec.FieldSpec{ID: 7, Len: 2}, refcodec.FieldSpec{ID: 999, Len: 3}, refcodec.FieldSpec{ID: 77, PEN: 4242, Len: 65535}, refcodec.FieldSpec{ID: 4, Len: 1})}}, false},
+		// redefinitions: the same id re-announced with a different layout (shorter / longer / degenerate)
+		{"redef-shorter", []refcodec.Template{
+			{ID: 256, Fields: fs(refcodec.FieldSpec{ID: 7, Len: 2}, refcodec.FieldSpec{ID: 4, Len: 1}, refcodec.FieldSpec{ID: 10, Len: 4})},
+			{ID: 256, Fields: fs(refcodec.FieldSpec{ID: 4, Len: 1})}}, true},
+		{"redef-longer", []refcodec.Template{
+			{ID: 256, Fields: fs(refcodec.FieldSpec{ID: 4, Len: 1})},
+			{ID: 256, Fields: fs(refcodec.FieldSpec{ID: 7, Len: 2}, refcodec.FieldSpec{ID: 10, Len: 4}, refcodec.FieldSpec{ID: 1, Len: 8})}}, true},
+		{"redef-var", []refcodec.Template{
+			{ID: 256, Fields: fs(refcodec.FieldSpec{ID: 7, Len: 2}, refcodec.FieldSpec{ID: 10, Len: 4})},
+			{ID: 256, Fields: fs(refcodec.FieldSpec{ID: 82, Len: 65535}, refcodec.FieldSpec{ID: 4, Len: 1})}}, true},
+		{"redef-zerolen", []refcodec.Template{
+			{ID: 256, Fields: fs(refcodec.FieldSpec{ID: 7, Len: 2})},
+			{ID: 256, Fields: fs(refcodec.FieldSpec{ID: 999, Len: 0})}}, false},
+		// unknown elements in last position (fixed after a variable field; variable)
+		{"unknown-last-fixed", []refcodec.Template{{ID: 256, Fields: fs(refcodec.FieldSpec{ID: 7, Len: 2}, refcodec.FieldSpec{ID: 82, Len: 65535}, refcodec.FieldSpec{ID: 999, Len: 3})}}, false},
+		{"unknown-last-var", []refcodec.Template{{ID: 256, Fields: fs(refcodec.FieldSpec{ID: 4, Len: 1}, refcodec.FieldSpec{ID: 77, PEN: 4242, Len: 65535})}}, false},
 		{"two", []refcodec.Template{
 			{ID: 256, Fields: fs(refcodec.FieldSpec{ID: 7, Len: 2}, refcodec.FieldSpec{ID: 4, Len: 1})},
 			{ID: 257, Fields: fs(refcodec.FieldSpec{ID: 1, Len: 8})}}, true},
